@@ -720,7 +720,7 @@ End Cp2kP.
 
 (* ================================================================== GROMACS *)
 Section GmxP.
-Variable fixL3 : bool.
+Variable fixL3 fixL14 : bool.
 Variables hsz dsz head0 : nat.
 Variable final_size : nat.
 
@@ -884,11 +884,13 @@ Proof.
 Qed.
 
 Lemma gmx_epochs_ok : forall eps rem ph br hs i p,
-  gres_ok p i rem (gmx_epochs fx ord left right rv code fixL3 hsz dsz head0 final_size eps rem ph br hs i p).
+  gres_ok p i rem (gmx_epochs fx ord left right rv code fixL3 fixL14 hsz dsz head0 final_size eps rem ph br hs i p).
 Proof.
   induction eps as [|size rest IH]; intros rem ph br hs i p.
   - cbn [gmx_epochs]. destruct ph; [apply gmx_exit_ok|].
-    destruct (br + dsz <=? final_size)%nat; [|exact I].
+    destruct (br + dsz <=? final_size)%nat;
+      [|destruct fixL14; [|exact I]; unfold fell_through; destruct (Z.eqb_spec code 0) as [Hc|Hc];
+        cbn [gres_ok]; (split; [exact Hc|exists 0%nat; reflexivity])].
     destruct rem as [|c rem']; [exact I|].
     unfold gmx_consume.
     destruct (add_to_path_x fx p (snapshot rv (gord c) i) left right) as [[[[p1 s] st] ad]|] eqn:E.
@@ -911,7 +913,7 @@ Qed.
 (* main statement for the GROMACS TRR state machine: for ANY sequence of observed file sizes *)
 Theorem gromacs_any_schedule : forall p0 dead eps,
   gres_ok p0 0 traj
-    (gromacs_run fx ord left right rv traj code fixL3 hsz dsz head0 final_size p0 dead eps).
+    (gromacs_run fx ord left right rv traj code fixL3 fixL14 hsz dsz head0 final_size p0 dead eps).
 Proof.
   intros p0 dead eps. unfold gromacs_run.
   destruct (dead && negb (code =? 0)) eqn:E.
@@ -922,7 +924,7 @@ Qed.
 
 Theorem gromacs_returns_prefix : forall p0 dead eps p s ps,
   gmx_own_cond ->
-  gromacs_run fx ord left right rv traj code fixL3 hsz dsz head0 final_size p0 dead eps = Ret p s ps ->
+  gromacs_run fx ord left right rv traj code fixL3 fixL14 hsz dsz head0 final_size p0 dead eps = Ret p s ps ->
   runf p0 (own_stream ord rv traj) = SStop p s.
 Proof.
   intros p0 dead eps p s ps Hown H.
@@ -932,14 +934,14 @@ Qed.
 
 Theorem gromacs_failure_raises : forall p0 dead eps,
   code <> 0 ->
-  match gromacs_run fx ord left right rv traj code fixL3 hsz dsz head0 final_size p0 dead eps with
+  match gromacs_run fx ord left right rv traj code fixL3 fixL14 hsz dsz head0 final_size p0 dead eps with
   | Trunc _ _ => False
   | _ => True
   end.
 Proof.
   intros p0 dead eps Hc.
   pose proof (gromacs_any_schedule p0 dead eps) as G.
-  destruct (gromacs_run fx ord left right rv traj code fixL3 hsz dsz head0 final_size p0 dead eps); auto.
+  destruct (gromacs_run fx ord left right rv traj code fixL3 fixL14 hsz dsz head0 final_size p0 dead eps); auto.
   cbn [gres_ok] in G. destruct G as [G _]. contradiction.
 Qed.
 
@@ -999,6 +1001,46 @@ Proof.
   pose proof (cp2k_any_schedule fx ord left right rv traj code box0 p0 reads HF) as O.
   rewrite <- firstn_map in O.
   eapply (same_outcome_ret_full fx ord left right rv (map (fixbox box0) traj) code); [exact O|exact G].
+Qed.
+
+(* ================================================================== frame k carries its own data *)
+Lemma nth_error_firstn_some : forall {A} (l : list A) n k x,
+  nth_error (firstn n l) k = Some x -> nth_error l k = Some x.
+Proof.
+  induction l as [|a l IH]; intros n k x H; destruct n; destruct k; cbn in *; try discriminate; auto.
+  eapply IH; exact H.
+Qed.
+
+Lemma own_stream_from_nth_inv : forall ord rv cs k0 j f,
+  nth_error (own_stream_from ord rv k0 cs) j = Some f ->
+  exists c, nth_error cs j = Some c /\ f = own_frame ord rv (k0 + j) c.
+Proof.
+  induction cs as [|x r IH]; intros k0 j f H; [destruct j; discriminate|].
+  destruct j as [|j]; cbn in H.
+  - injection H as <-. exists x. rewrite Nat.add_0_r. split; reflexivity.
+  - destruct (IH (S k0) j f H) as [c [Hc Hf]]. exists c. split; [exact Hc|].
+    replace (k0 + S j)%nat with (S k0 + j)%nat by lia. exact Hf.
+Qed.
+
+(* whatever path a poller returns as "the stop-rule prefix of the trajectory's own-data frames":
+   its k-th frame is built from the k-th configuration alone: order parameter of that
+   configuration's positions, box and velocities in the requested direction, config index k *)
+Theorem stop_prefix_frames_own : forall fx left right M t0 ord rv traj p s,
+  (0 < M)%nat ->
+  run_frames fx left right (empty_path M t0) (own_stream ord rv traj) = SStop p s ->
+  forall k f, nth_error (pts p) k = Some f ->
+  exists c, nth_error traj k = Some c /\
+    ford f = ord (cpos c) (if rv then - cvel c else cvel c) (cbox c) /\
+    ftag f = Z.of_nat k /\ frev f = rv.
+Proof.
+  intros fx left right M t0 ord rv traj p s HM H k f Hk.
+  rewrite run_frames_empty in H by exact HM.
+  destruct (first_fire left right M 0 (own_stream ord rv traj)) as [[k0 f0]|]; [|discriminate].
+  injection H as Hp _. rewrite <- Hp in Hk.
+  change (nth_error (firstn (S k0) (own_stream ord rv traj)) k = Some f) in Hk.
+  apply nth_error_firstn_some in Hk. unfold own_stream in Hk.
+  destruct (own_stream_from_nth_inv _ _ _ _ _ _ Hk) as [c [Hc ->]].
+  exists c. split; [exact Hc|]. cbn. repeat split.
 Qed.
 
 (* ================================================================== time reversal *)
@@ -1062,10 +1104,22 @@ Qed.
    the un-reversed file velocity *)
 Theorem gromacs_double_negation_refuted :
   exists ord left right traj eps p s ps,
-    gromacs_run true ord left right true traj 0 false 10 20 10 60 (empty_path 2 0) false eps = Ret p s ps /\
+    gromacs_run true ord left right true traj 0 false false 10 20 10 60 (empty_path 2 0) false eps = Ret p s ps /\
     run_frames true left right (empty_path 2 0) (own_stream ord true traj) <> SStop p s /\
-    gromacs_run true ord left right true traj 0 true 10 20 10 60 (empty_path 2 0) false eps <> Ret p s ps.
+    gromacs_run true ord left right true traj 0 true false 10 20 10 60 (empty_path 2 0) false eps <> Ret p s ps.
 Proof.
   exists (fun _ v _ => v), (-5), 0, [mkC 0 1 0; mkC 1 1 0], [60%nat].
   eexists. eexists. eexists. split; [vm_compute; reflexivity|]. split; vm_compute; discriminate.
+Qed.
+
+(* L14: the program dies (code 1) after writing the header of frame 1 but not its data, the
+   header having been read while it was still running: the original loop waits forever, the
+   repaired one raises *)
+Theorem gromacs_midframe_crash_refuted :
+  exists ord left right traj eps p,
+    gromacs_run true ord left right false traj 1 true false 10 20 10 45 (empty_path 5 0) false eps = Hang p /\
+    gromacs_run true ord left right false traj 1 true true 10 20 10 45 (empty_path 5 0) false eps = Raise p (PExited 1).
+Proof.
+  exists (fun p _ _ => p), (-5), 50, [mkC 0 1 0], [30%nat; 45%nat].
+  eexists. split; vm_compute; reflexivity.
 Qed.
